@@ -1302,8 +1302,10 @@ class Network(Cached):
         :type values: square numpy array [node,node]
         :arg  values: Entry [i,j] is the attribute of the link from i to j.
         """
-        for e in self.graph.es:
-            e[attribute_name] = values[e.tuple]
+        #  (read all values first: a matrix that does not fit the network
+        #  raises here, before any link has been given a new value)
+        new_values = [values[e.tuple] for e in self.graph.es]
+        self.graph.es[attribute_name] = new_values
         # invalidate cache
         self._mut_la += 1
 
